@@ -62,7 +62,7 @@ D = {
   rule="generated send/close histories (explicit close, close with error, end of remote_exec, dropping the last reference, concurrent close on both sides) with 1-3 blocked receivers and waitclose callers that probe isclosed/send/waitclose/close/receive after having observed the close",
   ntext="non-trivial = some receiver saw EOFError and a probe (send/isclosed) followed", known="None"),
 "c07": dict(post='ctx.coverage["channel_file_errors"] = cferr\n    ctx.coverage["multichannel_real"] = multi\n    ctx.coverage["endmarker_callback_raises"] = cbend', extra='cferr = gc.chanfile_error_part(ctx, rng)\n    cbend = gc.cbend_part(ctx)\n    multi = gc.multi_part(ctx, ["C07."])\n    jobs += gc.jobs_for([p for p in progs if len(p["threads"]) == 1], 6 if ctx.quick else 40, 2, ctx.seed + 1, [{"post_yields": True, "worker_backend": "main_thread_only"}])',title="C07 -- remote failures surface as RemoteError on that channel only",
-  cfgs='["GW_err"] if ctx.quick else ["GW_err", "GW_cb_recv", "GW_data_big", "GW_all_big"]', mutants='[]',
+  cfgs='["GW_err", "GW_cb_raises"] if ctx.quick else ["GW_err", "GW_cb_raises", "GW_cb_recv", "GW_data_big", "GW_all_big"]', mutants='["GW_cb_raises_unguarded"]',
   fam="c07_programs(rng, 8 if ctx.quick else 60)", own='["C07.", "C14.false-deadlock", "C10.endmarker-missing"]',
   line='["_local_receive", "_local_close", "close", "waitclose", "receive", "_getremoteerror", "executetask", "_executetask"]',
   nontriv='lambda evs: any(e["ev"] == "fin" and e["op"] == "6" for e in evs)',
